@@ -1,10 +1,16 @@
-//! C09: the incremental decoder agrees with the one-shot parser for every single cut (oracle inside
-//! the target); no panic on any input. Known cells are skipped (see README).
+//! C09 (oracle inside the target):
+//!  * valid UTF-8: the incremental decoder agrees with the one-shot parser for the whole buffer and for every
+//!    single cut (same value kind-exactly or both errors; for a value the same number of bytes consumed);
+//!  * a text that parses gives a value that each of the three printers writes back to a text that parses to
+//!    exactly that value (exempt: a value that contains a non-finite float -- the one OPEN C09 finding
+//!    `{value-roundtrip,cycle-undefined}:nonfinite-float`; nothing else is skipped);
+//!  * any input, also invalid UTF-8: no panic.
 #![no_main]
 use bytes::{BufMut, BytesMut};
 use libfuzzer_sys::fuzz_target;
 use swimos_form::read::RecognizerReadable;
 use swimos_recon::parser::{parse_recognize, RecognizerDecoder};
+use swimos_recon::{print_recon, print_recon_compact, print_recon_pretty};
 use tokio_util::codec::Decoder;
 
 include!("common.rs");
@@ -54,9 +60,6 @@ fuzz_target!(|data: &[u8]| {
         }
         return;
     };
-    if has_surrogate_escape(text) {
-        return;
-    }
     let oneshot = match parse_recognize::<Value>(text, false) {
         Ok(v) => Outcome::Val(v),
         Err(_) => Outcome::Err,
@@ -70,10 +73,28 @@ fuzz_target!(|data: &[u8]| {
         oneshot,
         text
     );
-    // Known finding (C09 chunk-result:*:top-level-bare-token): the first token of the input is cut wrongly.
-    let t = text.trim_start_matches([' ', '\t', '\n', '\r']);
-    if !t.is_empty() && !t.starts_with(['"', '@', '{']) {
-        return;
+    if let Outcome::Val(v) = &oneshot {
+        // OPEN finding (C09 *:nonfinite-float): only the print -> parse law is exempt, only for such a value.
+        if !has_nonfinite_float(v) {
+            for (name, printed) in [
+                ("print_recon", format!("{}", print_recon(v))),
+                ("print_recon_compact", format!("{}", print_recon_compact(v))),
+                ("print_recon_pretty", format!("{}", print_recon_pretty(v))),
+            ] {
+                match parse_recognize::<Value>(printed.as_str(), false) {
+                    Ok(back) => assert!(
+                        structural_eq(&back, v),
+                        "{}: {:?} parsed from {:?} prints as {:?} which parses as {:?}",
+                        name,
+                        v,
+                        text,
+                        printed,
+                        back
+                    ),
+                    Err(e) => panic!("{}: {:?} parsed from {:?} prints as {:?} which does not parse: {:?}", name, v, text, printed, e),
+                }
+            }
+        }
     }
     let n = data.len();
     let stride = n / 256 + 1;
